@@ -349,6 +349,141 @@ let check_stress rounds observed buffered r =
       buffered r rounds
   else "PROP a receiver stayed parked although items were buffered and the model does not allow it"
 
+(* ---------------------------------------------------------------------------------------- *)
+(* kind 6: deterministic wake-up probes (calls placed in the check-then-park window) *)
+
+let rec step_until (stepf : 'a -> 'a option) (stop : 'a -> bool) (s : 'a) (n : int) : 'a =
+  if n = 0 || stop s then s else match stepf s with Some s' -> step_until stepf stop s' (n - 1) | None -> s
+
+let check_probe variant (obs : (int * int) list) =
+  let show l = String.concat " " (List.map (fun (r, v) -> Printf.sprintf "(%d,%d)" r v) l) in
+  (* what the driver records: results up to and including the first one that is not "true" *)
+  let truncate ncalls (l : (int * int) list) =
+    let rec go l = match l with [] -> [] | (1, v) :: r -> (1, v) :: go r | x :: _ -> [x] in
+    let t = go l in
+    if List.length t < ncalls && List.for_all (fun (r, _) -> r = 1) t then t @ [(2, 0)] else t in
+  let verdict expected =
+    if expected = obs then "OK"
+    else if List.exists (fun (r, _) -> r = 2 || r = 9) obs && not (List.exists (fun (r, _) -> r = 2) expected)
+    then Printf.sprintf "PROP lost wake-up: a call placed between the empty/full check and the park left the parked side asleep although it could proceed (variant %d: model %s, implementation %s)" variant (show expected) (show obs)
+    else Printf.sprintf "DIFF probe %d: model %s implementation %s" variant (show expected) (show obs) in
+  match variant with
+  | 1 | 2 | 3 | 4 ->
+    let n = (match variant with 2 | 4 -> 2 | _ -> 1) in
+    let hook = (match variant with
+        | 1 -> [PSend (n_of_int 1)] | 2 -> [PSend (n_of_int 1); PSend (n_of_int 2)]
+        | 3 -> [PClose] | _ -> [PSend (n_of_int 1); PClose]) in
+    let s = minit (List.init n (fun _ -> CRecv)) [hook] in
+    let s = step_until (fun s -> mstep s O) (fun s -> s.cons.c_pc = V_park) s 20 in
+    if s.cons.c_pc <> V_park then "DIFF probe: the model consumer did not reach its park" else
+    let s = mrun_thread fuel s (nat_of_int 2) in
+    let s = mrun_thread fuel s O in
+    let res = List.map (fun r -> match r with
+        | CRRecv (Some v) | CRTry (Some v) -> (1, int_of_n v) | _ -> (0, 0)) s.cons.cres in
+    verdict (truncate n res)
+  | 5 | 6 | 7 ->
+    let n = (if variant = 7 then 2 else 1) in
+    let hook = (match variant with
+        | 5 -> [OSend (n_of_int 1)] | 6 -> [OClose] | _ -> [OSend (n_of_int 1); OSend (n_of_int 2)]) in
+    let s = init (nat_of_int 2) (Some O) [List.init n (fun _ -> ORecv); hook] in
+    let at_park s = (match nth_opt s.thr 0 with Some th -> th.tpc = R_park | None -> true) in
+    let s = step_until (fun s -> step s O) at_park s 50 in
+    if not (at_park s) then "DIFF probe: the model receiver did not reach its park" else
+    let s = run_thread fuel s (nat_of_int 1) in
+    let s = run_thread fuel s O in
+    let res = (match nth_opt s.thr 0 with
+        | Some th -> List.map (fun r -> match r with RRecv (Some v) -> (1, int_of_n v) | _ -> (0, 0)) th.res
+        | None -> []) in
+    verdict (truncate n res)
+  | 8 ->
+    let s = init (nat_of_int 2) (Some O)
+        [[OSend (n_of_int 1); OSend (n_of_int 2); OSend (n_of_int 3)]; [ORecv]] in
+    let at_park s = (match nth_opt s.thr 0 with Some th -> th.tpc = S_park | None -> true) in
+    let s = step_until (fun s -> step s O) at_park s 200 in
+    if not (at_park s) then "DIFF probe: the model sender did not reach its park" else
+    let s = run_thread fuel s (nat_of_int 1) in
+    let s = run_thread fuel s O in
+    let sent = (match nth_opt s.thr 0 with
+        | Some th -> (match last_opt th.res with Some (RSend (_, true)) when List.length th.res = 3 -> 1
+                                               | Some (RSend (_, false)) when List.length th.res = 3 -> 0 | _ -> 2)
+        | None -> -1) in
+    let got = (match nth_opt s.thr 1 with
+        | Some th -> (match last_opt th.res with Some (RRecv (Some v)) -> int_of_n v | _ -> 0) | None -> -1) in
+    verdict [(sent, got); (int_of_nat (size s.g), 0)]
+  | 9 ->
+    (match obs with
+     | [(values, parked); (buffered, _)] ->
+       if values = 78 || values = 87 then "OK"   (* both receivers returned: nothing lost *)
+       else if (values = 7 || values = 8) && parked >= 1 && buffered >= 1 && model_reproduces_lost_wakeup () then
+         Printf.sprintf "KNOWN mpmc_lost_wakeup deterministic: both receivers stood before `select { case <-p.empty` when Send(7), Send(8) signalled; one took the token and item %d, the other stayed parked with %d item(s) buffered; the model reaches the same state by schedule lw_sched" values buffered
+       else Printf.sprintf "PROP two-receiver probe: values=%d parked=%d buffered=%d is neither a clean run nor the modelled lost wake-up" values parked buffered
+     | _ -> "DIFF malformed probe record")
+  | _ -> "DIFF unknown probe"
+
+(* ---------------------------------------------------------------------------------------- *)
+(* kind 7: the media of worker/medium.go *)
+
+let check_medium kind capn ops =
+  let k = (match kind with 0 -> MQueue | 1 -> MAcc | _ -> MChan (nat_of_int capn)) in
+  let s = ref (minit_medium k) in
+  let spec = ref (Some chan0) in
+  let diffs = ref [] and props = ref [] in
+  let diff i fmt = Printf.ksprintf (fun m -> diffs := Printf.sprintf "op %d: %s" i m :: !diffs) fmt in
+  let prop i fmt = Printf.ksprintf (fun m -> props := Printf.sprintf "op %d: %s" i m :: !props) fmt in
+  let buf () = (match !spec with Some c -> c.c_buf | None -> []) in
+  let closed () = (match !spec with Some c -> c.c_closed | None -> false) in
+  let feed i ev =
+    match !spec with
+    | None -> ()
+    | Some c -> (match spec_step c ev with
+        | Some c' -> spec := Some c'
+        | None -> prop i "%s is illegal for a channel holding %d item(s)%s" (ev_str ev)
+                    (List.length c.c_buf) (if c.c_closed then " (closed)" else ""); spec := None) in
+  List.iteri (fun i v ->
+      match as_list v with
+      | [c; l; a; r; x; lat] ->
+        let code = as_int c and live = as_int l = 1 and arg = as_int a and res = as_int r
+        and value = as_int x and latch_obs = as_int lat = 1 in
+        if res = 9 && code = 0 then () (* not executed by the driver *) else begin
+          let op = (match code with
+              | 0 -> MSend (live, n_of_int arg)
+              | 1 -> MRecv (live, res = 1)      (* the random select choice is read off the observation *)
+              | _ -> MClose) in
+          let (s1, r1) =
+            (match (if code = 0 && not live && res = 1 then med_step_alt !s op else None) with
+             | Some x -> x | None -> med_step !s op) in
+          let mres = (match r1 with
+              | MRSend true -> (1, 0) | MRSend false -> (0, 0)
+              | MRRecv (Some v) -> (1, int_of_n v) | MRRecv None -> (0, 0)
+              | MRBlock -> (2, 0) | MRClose -> (0, 0) | MRPanic -> (7, 0)) in
+          if mres <> (res, value) then
+            diff i "%s: model (%d,%d) implementation (%d,%d)"
+              (match code with 0 -> "Send" | 1 -> "Recv" | _ -> "Close") (fst mres) (snd mres) res value;
+          (* the property itself, on the implementation's results *)
+          (match code, res with
+           | 0, 1 -> feed i (EEnq (O, n_of_int arg))
+           | 0, 0 -> if live && kind <> 2 then feed i (EEnqFail O)
+           | 1, 1 -> feed i (EDeq (O, n_of_int value))
+           | 1, 0 ->
+             if live then begin
+               if buf () <> [] then
+                 prop i "Recv with a live context returned (nil,false) although %d accepted item(s) are still queued (lost)" (List.length (buf ()))
+               else if not (closed ()) then prop i "Recv with a live context returned (nil,false) on an open medium"
+             end
+           | 1, 2 -> if buf () <> [] then prop i "Recv blocked although an item is queued"
+                     else if closed () then prop i "Recv blocked on a closed, drained medium"
+           | 2, _ -> feed i (EClose O)
+           | _ -> ());
+          s := s1;
+          if !s.latch <> latch_obs then
+            diff i "closed latch: model %b implementation %b" !s.latch latch_obs
+        end
+      | _ -> diff i "malformed op") ops;
+  match !props, !diffs with
+  | _ :: _, _ -> "PROP " ^ String.concat "; " (List.rev !props)
+  | [], _ :: _ -> "DIFF " ^ String.concat "; " (List.rev !diffs)
+  | [], [] -> "OK"
+
 let f _id vs =
   match vs with
   | [I "1"; cap; exts; valid; ops] -> check_mpmc_seq (as_int cap) (as_int exts) (as_int valid) (as_list ops)
@@ -357,6 +492,11 @@ let f _id vs =
   | [I "4"; _n; ops] -> check_history "MPSC" (List.map parse_hop (as_list ops))
   | [I "5"; rounds; observed; buffered; r] ->
     check_stress (as_int rounds) (as_int observed) (as_int buffered) (as_int r)
+  | [I "6"; variant; obs] ->
+    check_probe (as_int variant)
+      (List.map (fun v -> match as_list v with [a; b] -> (as_int a, as_int b) | _ -> (-1, -1)) (as_list obs))
+  | [I "7"; kind; capn; ops] -> check_medium (as_int kind) (as_int capn) (as_list ops)
+  | [I "8"; _rounds; _observed] -> "OK"   (* an observation is reported by the driver as !PROP *)
   | _ -> "DIFF malformed-record"
 
 let () = run_oracle f
